@@ -39,8 +39,8 @@ Section SimLazy.
     (forall p pr, lookup (w_props w) p = Some pr -> L.lenv s p = pr_value pr) /\
     (forall q, L.ltr s q = match lz_of w q with Some x => abs_tree (b_root x) | None => None end).
 
-  (* every live binding is registered with the evaluator; trees are abstractable (no dead input) *)
-  Definition ALLLAZY (w : world) : Prop := forall b x, get_bind w b = Some x -> b_evp x = ev.
+  (* every live binding is evaluator-driven (registered with ev or with ANY other explicit evaluator); trees are abstractable (no dead input) *)
+  Definition ALLLAZY (w : world) : Prop := ev <> 0 /\ forall b x, get_bind w b = Some x -> b_evp x <> 0.
   Definition LSIMPLE (w : world) : Prop := forall q x, lz_of w q = Some x -> abs_tree (b_root x) <> None.
   Definition LSC (w : world) : Prop := pinv w /\ NOACT w /\ LSIMPLE w /\ ALLLAZY w.
 
@@ -107,7 +107,7 @@ Section SimLazy.
   Proof.
     intros F Hinv Hn Ha. split; [eapply pinv_views; [apply LFR_views; exact F|exact Hinv]|]. split.
     - intros t pos ser label act Hs. destruct F as (_ & T & _). unfold slot_at in Hs. rewrite T in Hs. eapply Hn; eauto.
-    - intros b x' Hx'. destruct F as (_ & _ & _ & _ & _ & _ & _ & _ & _ & _ & F11). destruct (F11 _ _ Hx') as (x & Hx & E). rewrite E. eauto.
+    - split; [exact (proj1 Ha)|]. intros b x' Hx'. destruct F as (_ & _ & _ & _ & _ & _ & _ & _ & _ & _ & F11). destruct (F11 _ _ Hx') as (x & Hx & E). rewrite E. exact (proj2 Ha _ _ Hx).
   Qed.
 
   Definition ladeliver (w : world) (s : L.lstate) (sub : subscriber) : L.lstate :=
@@ -131,7 +131,7 @@ Section SimLazy.
       - destruct (get_bind w b) as [x|] eqn:Hb; [|discriminate H].
         destruct (mark (b_root x) l) as [[t1 up]|] eqn:Hm; [|discriminate H].
         pose proof (leaves_mark _ _ _ _ Hm) as Hl1.
-        assert (Hevp : Nat.eqb (b_evp x) 0 = false) by (rewrite (Hal _ _ Hb); apply Nat.eqb_neq; exact ev_pos).
+        assert (Hevp : Nat.eqb (b_evp x) 0 = false) by (apply Nat.eqb_neq; exact (proj2 Hal _ _ Hb)).
         rewrite Hevp in H. assert (Hw' : w' = put_bind w b (bind_with_root x t1)) by (destruct up; inversion H; reflexivity). subst w'. clear H.
         pose proof (put_root_LFR w b x t1 Hb Hl1) as FR1. destruct (LSC_LFR _ _ FR1 Hinv Hna Hal) as (Hinv1 & Hna1 & Hal1).
         unfold lz. rewrite Hb. destruct (b_target x) as [q|] eqn:Htg.
